@@ -1057,6 +1057,7 @@ class Executor(ExprMixin, StmtMixin, Engine):
         self.mutated_globals = mutated_global_names(fdef)
         self.concat_axioms = bool(getattr(c, 'options', {}).get('concat_axioms'))
         self.slice_axioms = bool(getattr(c, 'options', {}).get('slice_axioms'))
+        self.timeout_ms = getattr(c, 'options', {}).get('timeout_ms')
         st = self.initial_state(c)
         # class-typed first parameter of classmethods
         for (pn, pt, *rest) in c.params:
